@@ -253,9 +253,13 @@ def readTypeInfo (fx : Bool) : Nat → P TI
   | 0 => crashAt .fuel
   | f+1 => do
     let id ← readShort
+    -- a custom option carries only a class name: it becomes the scalar type the name maps to, and stays
+    -- custom (0) when the name maps to a collection / tuple class (since /repo commit 8351452; before it
+    -- "…ListType" etc. were parsed as collections whose element types were then read from what follows)
     let typ ← (if id == 0 then do
                   let cls ← readString
-                  pure (TypeStr.apacheType cls)
+                  let t := TypeStr.apacheType cls
+                  pure (if t == 0x20 || t == 0x21 || t == 0x22 || t == 0x31 then 0 else t)
                 else pure id)
     if typ == 0x31 then do
       let n ← readShort
